@@ -61,8 +61,9 @@ LOCAL Slack(t, x, y) == DyAdd(Eps(t, x), Eps(t, y))
 LOCAL OffSeam(t, x) == DyLt(DyAdd(DyAbs(CanonSigned(x)), Eps(t, x)), D180)
 HueAbsMustF(t, x, y, eps) == DyLt(DyAdd(Widen(t, eps), Slack(t, x, y)), CircDist(DySub(x, y)))
 HueAbsMustT(t, x, y, eps) ==
-  /\ OffSeam(t, x) /\ OffSeam(t, y)
-  /\ DyLe(DyAdd(AbsD(CanonSigned(x), CanonSigned(y)), Slack(t, x, y)), eps)
+  \/ DyEq(x, y)                          \* the same stored angle has the same normal form, whatever that is
+  \/ /\ OffSeam(t, x) /\ OffSeam(t, y)
+     /\ DyLe(DyAdd(AbsD(CanonSigned(x), CanonSigned(y)), Slack(t, x, y)), eps)
 
 CompAbsMustT(hi, i, t, x, y, eps) == IF IsHue(hi, i) THEN InDomain(x) /\ InDomain(y) /\ HueAbsMustT(t, x, y, eps)
                                      ELSE LinAbsMustT(x, y, eps)
@@ -103,7 +104,7 @@ RelativeOK(hi, t, a, b, eps, mr, r) ==
 (* units in the last place (approx::UlpsEq for floats):
      |x - y| <= eps  \/  (same sign  /\  the floats are at most k representable values apart)
    k steps starting at the smaller magnitude cover at least k ulp(smaller) and at most k ulp(larger). *)
-LOCAL UlpOf(t, v) == IF DyIsZero(v) THEN DyPow2(MinExp(t)) ELSE DyPow2(UlpExp2(t, v))
+LOCAL UlpOf(t, v) == IF DyIsZero(v) THEN DyPow2(MinExp(t)) ELSE DyPow2(UlpExp(t, v))
 LOCAL Smaller(x, y) == DyMin(DyAbs(x), DyAbs(y))
 LinUlpsMustT(t, x, y, eps, k) ==
   \/ DyLe(AbsD(x, y), eps)
